@@ -40,6 +40,8 @@ type c02Gen struct {
 	slot2  int
 	depth  int
 	inFin  int // nesting of finally bodies being generated
+	// onlyLoops: nested compound statements are loops (a slice of the family for the quick tier)
+	onlyLoops bool
 }
 
 func (g *c02Gen) probe() ast.Stmt {
@@ -84,6 +86,9 @@ func (g *c02Gen) inner(inLoop bool, level int) []ast.Stmt {
 		// 'continue' is not allowed inside a finally clause (a compile-time error in 3.4): not part of the family
 		verifAssume(g.inFin == 0)
 		return []ast.Stmt{&ast.Continue{}}
+	}
+	if g.onlyLoops {
+		verifAssume(k-5 == 1 || k-5 == 2)
 	}
 	return []ast.Stmt{g.compound(k-5, inLoop, level+1)}
 }
